@@ -9,6 +9,9 @@ EXTENDS Prims
 EqualsByte == 61
 SemiByte == 59
 MappingMaxSize == 65535
+\* the library's own documented third limit (data/constants.go MAX_MAPPING_PAIRS): its parser refuses the 1001st pair,
+\* so "the limits" of C11 include it: a map with more pairs has to be rejected by the constructors, never emitted
+MappingMaxPairs == 1000
 
 \* one pair at 0-based position pos of body b; [ok, next, k, v] (k, v = content bytes)
 PairAt(b, pos) ==
@@ -41,7 +44,7 @@ RefReadMapping(in) ==
   ELSE LET size == U16(in, 0) IN
        IF Len(in) < 2 + size THEN [ok |-> FALSE, consumed |-> 2 + size, pairs |-> << >>, short |-> TRUE, framed |-> FALSE, stop |-> 0]
        ELSE LET pb == ParseBody(Slice(in, 2, size)) IN
-            [ok |-> pb.ok /\ DistinctKeys(pb.pairs), consumed |-> 2 + size, pairs |-> pb.pairs, short |-> FALSE,
+            [ok |-> pb.ok /\ DistinctKeys(pb.pairs) /\ Len(pb.pairs) <= MappingMaxPairs, consumed |-> 2 + size, pairs |-> pb.pairs, short |-> FALSE,
              framed |-> TRUE, stop |-> pb.stop]
 
 SerPair(p) == << Len(p[1]) >> \o p[1] \o << EqualsByte >> \o << Len(p[2]) >> \o p[2] \o << SemiByte >>
@@ -60,10 +63,12 @@ RECURSIVE SortPairs(_)
 SortPairs(pairs) == IF Len(pairs) = 0 THEN << >> ELSE InsertPair(SortPairs(SubSeq(pairs, 1, Len(pairs) - 1)), pairs[Len(pairs)])
 IsSortedPairs(pairs) == \A i \in 1..(Len(pairs) - 1) : LexLeq(pairs[i][1], pairs[i + 1][1])
 
-\* a Go map (set of pairs with distinct keys) is encodable iff strings <= 255 and the body <= 65535
+\* a Go map (set of pairs with distinct keys) is encodable iff strings <= 255, the body <= 65535 and at most 1000 pairs
 MapEncodable(pairs) == /\ \A i \in 1..Len(pairs) : Len(pairs[i][1]) <= StringMax /\ Len(pairs[i][2]) <= StringMax
                        /\ BodySize(pairs) <= MappingMaxSize
-CanonicalSer(pairs) == SerMapping(SortPairs(pairs))
+                       /\ Len(pairs) <= MappingMaxPairs
+\* (a stable sort leaves sorted input alone; the shortcut keeps 1000-pair vectors affordable)
+CanonicalSer(pairs) == SerMapping(IF IsSortedPairs(pairs) THEN pairs ELSE SortPairs(pairs))
 
 \* class of a mapping body for known-finding keys: which leniency of the implementation's loop it meets
 \*   "exact"  : body is exactly pairs
